@@ -5,6 +5,13 @@
    with Univ.v's.) *)
 From HV Require Export Lattice.UF.
 
+(* Parent maps with PURE-CYCLE components ({a->b, b->a}, {a->b, b->c, c->a}, ...: no self-parent
+   root; accepted by UnionFind::new, and find closes such loops on the fly -- UF.find_root's
+   "loop detected" branch, PUF.find_pure_cycle) are not forests, so they are outside [W uf_ops]
+   and the C06 theorems for UnionFind (PAtomUF.v) do not speak about them.  [uf_atomize] on such a
+   map is literally the same function: one atom (item, immediate parent) per entry with
+   item <> parent.  The correspondence check generates such values too: the model below is run on
+   them and compared, and the executable property is evaluated on the implementation's atoms. *)
 (* Default::default(): the empty parent map *)
 Definition uf_dflt : uf := [].
 
